@@ -127,9 +127,10 @@ type Disturb struct {
 
 // Plan is the schedule/fault plan of a session.
 type Plan struct {
-	Policy  string    `json:"policy"`          // canonical | seeded
-	Class   string    `json:"class"`           // S0 | S1 | S2 | S3
-	Paste   bool      `json:"paste,omitempty"` // S1 only: several tokens may be typed at one wait
+	Policy  string    `json:"policy"`            // canonical | seeded
+	Class   string    `json:"class"`             // S0 | S1 | S2 | S3
+	Paste   bool      `json:"paste,omitempty"`   // S1 only: several tokens may be typed at one wait
+	ViRule  bool      `json:"vi_rule,omitempty"` // never cut directly after ESC even if the session starts in emacs mode (it may switch)
 	Faults  []Fault   `json:"faults,omitempty"`
 	Disturb []Disturb `json:"disturb,omitempty"`
 	Sites   []string  `json:"sites,omitempty"` // yield sites that actually park in this run
